@@ -108,3 +108,14 @@ package verifspec
 //@   loop 1 invariant all(q, has(old(gls.byImplementation), q) ==> has(gls.byImplementation, q)) && all(q, has(old(gls.byReference), q) ==> has(gls.byReference, q))
 //@   ensures result == nil ==> forall(k, 0, len(entries), has(gls.byImplementation, entries[k].Implementation) && has(gls.byReference, entries[k].Reference))
 //@   ensures all(q, has(old(gls.byImplementation), q) ==> has(gls.byImplementation, q)) && all(q, has(old(gls.byReference), q) ==> has(gls.byReference, q))
+
+// ImportsUnsafe: true exactly if one of the file's import specs has the path "unsafe" (the precondition of every
+// go:linkname directive of the file).
+//@ func compiler/astutil.ImportsUnsafe
+//@ property C10
+//@   panics_only_if true
+//@   requires file != nil
+//@   assigns nothing
+//@   loop 1 invariant 0 <= $i1 && $i1 <= len(file.Imports) && forall(k, 0, $i1, file.Imports[k].Path.Value != "\"unsafe\"")
+//@   ensures !result ==> forall(k, 0, len(file.Imports), file.Imports[k].Path.Value != "\"unsafe\"")
+//@   ensures result ==> exists(k, 0, len(file.Imports), file.Imports[k].Path.Value == "\"unsafe\"")
